@@ -246,6 +246,13 @@ main(void)
 			printf("ok\n");
 			continue;
 		}
+		if (IS("reseed") && vn == 2) {
+			// reseed <n>: restart the stream behind nni_random (randomised id maps pick
+			// their start lazily, so ids allocated from here on are reproducible)
+			sim_seed_user(strtoull(vw[1], NULL, 10));
+			printf("ok\n");
+			continue;
+		}
 		if (IS("open") && vn >= 2) {
 			int rv = NNG_ENOTSUP;
 			for (struct proto *p = protos; p->name; p++) {
@@ -340,11 +347,13 @@ main(void)
 				unsigned long j0, j1, ms0, ms1;
 				int           rv;
 				sim_jumps(&j0, &ms0);
+				sim_jump_slack(1); // a blocked non-blocking call must get past its deadline
 				if (vw[1][0] == '-') {
 					rv = nng_sendmsg(sock, m, NNG_FLAG_NONBLOCK);
 				} else {
 					rv = nng_ctx_sendmsg(ctxs[atoi(vw[1])], m, NNG_FLAG_NONBLOCK);
 				}
+				sim_jump_slack(0);
 				sim_jumps(&j1, &ms1);
 				if (rv != 0) {
 					nng_msg_free(m);
@@ -378,11 +387,13 @@ main(void)
 				int           rv;
 				nng_msg      *m = NULL;
 				sim_jumps(&j0, &ms0);
+				sim_jump_slack(1); // a blocked non-blocking call must get past its deadline
 				if (vw[1][0] == '-') {
 					rv = nng_recvmsg(sock, &m, NNG_FLAG_NONBLOCK);
 				} else {
 					rv = nng_ctx_recvmsg(ctxs[atoi(vw[1])], &m, NNG_FLAG_NONBLOCK);
 				}
+				sim_jump_slack(0);
 				sim_jumps(&j1, &ms1);
 				if (rv == 0) {
 					char pre[32];
